@@ -46,10 +46,10 @@ var commonAssumptions = []string{
 
 func init() {
 	registry["C08"] = &Property{
-		Quick: []HarnessSpec{{Name: "VC08_AcceptOnlyWellFormed", Params: map[string]int{"vsymC08Max": 92}, ConcAlloc: true, MaxDecisions: 4000, MaxPaths: 60000, TimeoutSec: 400, NeedReach: []string{"accept", "reject", "end"}}},
-		Thorough: []HarnessSpec{{Name: "VC08_AcceptOnlyWellFormed", Params: map[string]int{"vsymC08Max": 140}, ConcAlloc: true, MaxDecisions: 8000, MaxPaths: 2000000, TimeoutSec: 3000, NeedReach: []string{"accept", "reject", "end"}}},
-		Bounds: []string{"input: every byte and the length symbolic, length <= 92 bytes (quick) / 140 (thorough)", "allocation sizes derived from header fields are case-split up to input length + 64; larger ones stay symbolic"},
-		Outside: []string{"inputs longer than the bound (the size arithmetic is length-independent, but that is an argument, not a solver result)"},
+		Quick:       []HarnessSpec{{Name: "VC08_AcceptOnlyWellFormed", Params: map[string]int{"vsymC08Max": 92}, ConcAlloc: true, MaxDecisions: 4000, MaxPaths: 60000, TimeoutSec: 400, NeedReach: []string{"accept", "reject", "end"}}},
+		Thorough:    []HarnessSpec{{Name: "VC08_AcceptOnlyWellFormed", Params: map[string]int{"vsymC08Max": 140}, ConcAlloc: true, MaxDecisions: 8000, MaxPaths: 2000000, TimeoutSec: 3000, NeedReach: []string{"accept", "reject", "end"}}},
+		Bounds:      []string{"input: every byte and the length symbolic, length <= 92 bytes (quick) / 140 (thorough)", "allocation sizes derived from header fields are case-split up to input length + 64; larger ones stay symbolic"},
+		Outside:     []string{"inputs longer than the bound (the size arithmetic is length-independent, but that is an argument, not a solver result)"},
 		Assumptions: commonAssumptions,
 	}
 	registry["C07"] = &Property{
@@ -59,7 +59,7 @@ func init() {
 			{Name: "VC07_BuiltRoundTrip", Params: map[string]int{"vsymC09Lists": 3, "vsymC09Entries": 2}, ConcAlloc: true, MaxPaths: 3000000, TimeoutSec: 3000, NeedReach: []string{"end"}}},
 		Bounds: []string{"well-formed streams (reference recogniser over the raw bytes) of at most 92 bytes (quick) / 130 (thorough): any number and order of X.509, SHA-256 and externally-managed lists, any owners and data",
 			"converse: a database satisfying the representation invariant (C09 shapes: 0..2 lists x 1..2 entries quick, 0..3 x 1..2 thorough) after one Append (raw or PEM) or Remove with symbolic arguments encodes to a stream that decodes to an equal database and re-encodes identically"},
-		Outside: []string{"streams longer than the bound, e.g. real certificates (the codec copies data verbatim; only sizes matter)"},
+		Outside:     []string{"streams longer than the bound, e.g. real certificates (the codec copies data verbatim; only sizes matter)"},
 		Assumptions: commonAssumptions,
 	}
 	registry["C10"] = &Property{
@@ -73,26 +73,30 @@ func init() {
 			{Name: "VC10_WinCertDecodeExact", Params: map[string]int{"vsymC10Max": 400}, ConcAlloc: true, MaxDecisions: 8000, MaxPaths: 2000000, TimeoutSec: 1200, NeedReach: []string{"end"}},
 			{Name: "VC10_EncodeDecode", Params: map[string]int{"vsymC10Max": 300}, ConcAlloc: true, MaxDecisions: 8000, MaxPaths: 2000000, TimeoutSec: 1200, NeedReach: []string{"end"}},
 		},
-		Bounds: []string{"descriptor || payload with every byte symbolic, total length <= 100 (quick) / 400 (thorough); dwLength any value that fits; any timestamp, type GUID, data, payload", "encode->decode: certificate data 0..60 (quick) / 0..300 bytes, payload 0..24 bytes"},
-		Outside: []string{"certificate data longer than the bound (the codec copies it verbatim)", "malformed descriptors (C14)"},
+		Bounds:      []string{"descriptor || payload with every byte symbolic, total length <= 100 (quick) / 400 (thorough); dwLength any value that fits; any timestamp, type GUID, data, payload", "encode->decode: certificate data 0..60 (quick) / 0..300 bytes, payload 0..24 bytes"},
+		Outside:     []string{"certificate data longer than the bound (the codec copies it verbatim)", "malformed descriptors (C14)"},
 		Assumptions: commonAssumptions,
 	}
 	registry["C17"] = &Property{
 		Quick: []HarnessSpec{{Name: "VC17_GUID", NeedReach: []string{"end"}}, {Name: "VC17_GUIDCompare", NeedReach: []string{"end"}},
-			{Name: "VC17_UTF16", Params: map[string]int{"vsymC17Runes": 3}, MaxDecisions: 2000, NeedReach: []string{"end"}}},
+			{Name: "VC17_UTF16", Params: map[string]int{"vsymC17Runes": 3}, MaxDecisions: 2000, NeedReach: []string{"end"}},
+			{Name: "VC17_Efistring", Params: map[string]int{"vsymC17Runes": 2}, MaxDecisions: 2000, NeedReach: []string{"end"}}},
 		Thorough: []HarnessSpec{{Name: "VC17_GUID", NeedReach: []string{"end"}}, {Name: "VC17_GUIDCompare", NeedReach: []string{"end"}},
-			{Name: "VC17_UTF16", Params: map[string]int{"vsymC17Runes": 4}, MaxDecisions: 4000, MaxPaths: 2000000, TimeoutSec: 1800, NeedReach: []string{"end"}}},
+			{Name: "VC17_UTF16", Params: map[string]int{"vsymC17Runes": 4}, MaxDecisions: 4000, MaxPaths: 2000000, TimeoutSec: 1800, NeedReach: []string{"end"}},
+			{Name: "VC17_Efistring", Params: map[string]int{"vsymC17Runes": 3}, MaxDecisions: 4000, MaxPaths: 2000000, TimeoutSec: 1800, NeedReach: []string{"end"}}},
 		Bounds: []string{"GUID: none — all 2^128 values are one symbolic run (four symbolic fields)",
-			"UTF-16: strings of 0..3 (quick) / 0..4 symbolic code points (any scalar value except NUL: BMP, non-BMP surrogate pairs, U+FEFF/U+FFFE included); golang.org/x/text is interpreted from source"},
+			"UTF-16: strings of 0..3 (quick) / 0..4 symbolic code points (any scalar value except NUL: BMP, non-BMP surrogate pairs, U+FEFF/U+FFFE included); golang.org/x/text is interpreted from source",
+			"NUL scan (util.ReadNullString on bytes.Buffer and bytes.Reader) and efivar.Efistring.Unmarshal: the same strings (Efistring 0..2 quick / 0..3 thorough) followed by 3 symbolic bytes: exactly the string with its terminator is consumed and decoded"},
 		Outside:     []string{"strings longer than the bound, in particular the 4096-byte transform buffer boundary"},
 		Assumptions: commonAssumptions,
 	}
 	registry["C18"] = &Property{
-		Quick:    []HarnessSpec{{Name: "VC18_BootOrderNames", Params: map[string]int{"vsymC18Entries": 3}, NeedReach: []string{"end"}}, {Name: "VC18_LoadOption", NeedReach: []string{"end"}}},
-		Thorough: []HarnessSpec{{Name: "VC18_BootOrderNames", Params: map[string]int{"vsymC18Entries": 8}, NeedReach: []string{"end"}}, {Name: "VC18_LoadOption", NeedReach: []string{"end"}}},
+		Quick:    []HarnessSpec{{Name: "VC18_BootOrderNames", Params: map[string]int{"vsymC18Entries": 3}, NeedReach: []string{"end"}}, {Name: "VC18_LoadOption", NeedReach: []string{"end"}}, {Name: "VC18_LoadOptionStrings", MaxPaths: 200000, TimeoutSec: 600, NeedReach: []string{"end"}}},
+		Thorough: []HarnessSpec{{Name: "VC18_BootOrderNames", Params: map[string]int{"vsymC18Entries": 8}, NeedReach: []string{"end"}}, {Name: "VC18_LoadOption", NeedReach: []string{"end"}}, {Name: "VC18_LoadOptionStrings", MaxPaths: 200000, TimeoutSec: 600, NeedReach: []string{"end"}}},
 		Bounds: []string{"boot order of 0..3 (quick) / 0..8 entries, all 65 536 values of every entry symbolic",
-			"load option from a reference encoder: symbolic attributes, 2-character ASCII description, one node of each supported kind in a fixed order (PCI, ACPI, hard drive MBR/GPT with signature type 1/2, USB, firmware file, file path of 2 characters, end) with symbolic field values; partition number 1..99, start/size below 2^16 (bounds the hex rendering forks); text forms of the hard-drive and file-path nodes compared byte for byte"},
-		Outside: []string{"longer boot orders (entries are decoded independently)", "other node orders and repeated nodes, descriptions and paths longer than 2 characters, partition start/size of 2^16 and more", "resolution of names through the boot-entry accessor (GetBootEntry opens <efivars>/<name>-<guid>: covered by C11's path assertion for arbitrary names)"},
+			"load option from a reference encoder: symbolic attributes, 2-character ASCII description, one node of each supported kind in a fixed order (PCI, ACPI, hard drive MBR/GPT with signature type 1/2, USB, firmware file, file path of 2 characters, end) with symbolic field values; partition number 1..99, start/size below 2^16 (bounds the hex rendering forks); text forms of the hard-drive and file-path nodes compared byte for byte",
+			"non-ASCII text: description and path name of two UTF-16 code units each, every BMP scalar value except NUL, in a load option with a file-path node (VC18_LoadOptionStrings)"},
+		Outside:     []string{"longer boot orders (entries are decoded independently)", "other node orders and repeated nodes, descriptions and paths longer than 2 characters, partition start/size of 2^16 and more", "resolution of names through the boot-entry accessor (GetBootEntry opens <efivars>/<name>-<guid>: covered by C11's path assertion for arbitrary names)"},
 		Assumptions: commonAssumptions,
 	}
 	c14 := func(name string, max int, extra map[string]int) HarnessSpec {
@@ -113,7 +117,7 @@ func init() {
 		},
 		Bounds: []string{"one harness per decoder entry point, every input byte and the length symbolic (length case-split): signature database/list, auth descriptor, WIN_CERTIFICATE(_UEFI_GUID), supported signatures <= 64 bytes; UTF-16 decoders <= 10 bytes; load option <= 22 bytes with description <= 3 code units; device path <= 14 bytes (three nodes); media node <= 44 bytes (file path <= 8); GUID text: canonical layout with 3 symbolic characters (one a separator position), and any text <= 4 chars; variable file <= 32 bytes with an independent symbolic stat size",
 			"obligations on every path: no panic, no log.Fatal/os.Exit, every make([]byte,n) <= 8*len+8192, termination within the unwinding bounds"},
-		Outside: []string{"inputs longer than the bounds", "wall-clock time and resident memory as measured quantities (replaced by unwinding bounds and allocation-size obligations)", "PEM key/certificate files (encoding/pem and crypto/x509 are not interpreted)", "formatted text (fmt.Sprintf is opaque in these harnesses)"},
+		Outside:     []string{"inputs longer than the bounds", "wall-clock time and resident memory as measured quantities (replaced by unwinding bounds and allocation-size obligations)", "PEM key/certificate files (encoding/pem and crypto/x509 are not interpreted)", "formatted text (fmt.Sprintf is opaque in these harnesses)"},
 		Assumptions: commonAssumptions,
 	}
 	c01 := func(nsec, plus, lfanew, nonEmpty, timeout int) HarnessSpec {
@@ -121,7 +125,7 @@ func init() {
 			MaxDecisions: 1000, MaxPaths: 5000, TimeoutSec: timeout, NeedReach: []string{"wellformed", "parsed", "end"}}
 	}
 	registry["C01"] = &Property{
-		Quick:    []HarnessSpec{c01(1, 1, 0x80, 0, 300), c01(1, 0, 0x40, 0, 300), c01(2, 1, 0x80, 3, 600),
+		Quick: []HarnessSpec{c01(1, 1, 0x80, 0, 300), c01(1, 0, 0x40, 0, 300), c01(2, 1, 0x80, 3, 600),
 			{Name: "VC01_MultiReadAt", Params: map[string]int{"vsymC01Parts": 2}, TimeoutSec: 300, NeedReach: []string{"end"}},
 			{Name: "VC01_Coverage", MaxDecisions: 2000, TimeoutSec: 300, NeedReach: []string{"covered", "excluded", "end"}}},
 		Thorough: []HarnessSpec{c01(0, 1, 0x80, 0, 600), c01(1, 1, 0x80, 0, 600), c01(1, 0, 0x40, 0, 600), c01(1, 1, 0xf8, 0, 600), c01(2, 1, 0x80, 0, 3000), c01(2, 0, 0x80, 0, 3000), c01(3, 1, 0x80, 1, 7200),
@@ -132,7 +136,7 @@ func init() {
 			"positional reader lemma: 2 (quick) / 3 parts of symbolic content and size <= 2^20 each, any offset <= 2^23 and request length <= 2^22",
 			"coverage on the shipped test image (unsigned and with an appended table): one byte changed, position symbolic within each 512-byte section window / every checksum byte / every 4th table byte, value symbolic: digest changes iff covered",
 			"oracle: SHA-256 of the byte string of steps 3-14 of the Microsoft Authenticode specification, built in the harness from the raw bytes (not through debug/pe); equality decided through the hash model (functional consistency) and structural equality of the two byte strings"},
-		Outside: []string{"more sections than the bound, images of 16 MiB and more, COFF symbol tables, relocations, string-table section names, other NumberOfRvaAndSizes", "per-position coverage is decided on the shipped test image only (section bytes with symbolic position, checksum bytes, certificate-table bytes); header positions and the directory entry follow from the symbolic oracle equality plus collision resistance"},
+		Outside:     []string{"more sections than the bound, images of 16 MiB and more, COFF symbol tables, relocations, string-table section names, other NumberOfRvaAndSizes", "per-position coverage is decided on the shipped test image only (section bytes with symbolic position, checksum bytes, certificate-table bytes); header positions and the directory entry follow from the symbolic oracle equality plus collision resistance"},
 		Assumptions: append([]string{"SHA-256 is modelled as an uninterpreted function with functional consistency; real SHA-256 is used on concrete inputs and in native replays"}, commonAssumptions...),
 	}
 	c03 := func(name string, nsec, plus, appends, timeout int) HarnessSpec {
@@ -145,18 +149,18 @@ func init() {
 		Bounds: []string{"sign/verify histories on the shipped test image under the signature model: sign, serialise, re-parse (digest unchanged, embedded digest equal, verifies for the signer, not for another certificate), sign again with another key on the re-parsed image (both verify, a third certificate does not, two table entries); serials symbolic",
 			"symbolic well-formed image as in C01 (1 section quick; 0..2 thorough; PE32/PE32+), with or without an existing certificate table of arbitrary content; signature bytes and length symbolic (0..65536, every length mod 8)",
 			"decided: output bytes = every original byte except the directory entry, zero padding to 8, old table, new WIN_CERTIFICATE (dwLength=8+len, revision 0x0200, type 0x0002, data, padding to 8); directory entry = (padded length or old address, table size) and spans to end of file; 2 (quick) / 3 in-memory appends"},
-		Outside: []string{"re-parse digest equality for symbolic images (decided on the fixture only; the specification-level lemma 'specified signed file is well-formed and keeps the specification digest' was attempted and is undecided by the solvers within 20 s per query: harness VC03_SignedIsWellFormed is kept but not registered)", "acceptance by real firmware"},
+		Outside:     []string{"re-parse digest equality for symbolic images (decided on the fixture only; the specification-level lemma 'specified signed file is well-formed and keeps the specification digest' was attempted and is undecided by the solvers within 20 s per query: harness VC03_SignedIsWellFormed is kept but not registered)", "acceptance by real firmware"},
 		Assumptions: commonAssumptions,
 	}
 	c09 := func(name string, lists, entries, timeout int, reach ...string) HarnessSpec {
 		return HarnessSpec{Name: name, Params: map[string]int{"vsymC09Lists": lists, "vsymC09Entries": entries}, MaxPaths: 3000000, TimeoutSec: timeout, NeedReach: reach}
 	}
 	registry["C09"] = &Property{
-		Quick: []HarnessSpec{c09("VC09_Append", 2, 2, 300, "append-ok", "append-error", "end"), c09("VC09_Remove", 2, 2, 300, "remove-ok", "remove-error", "end"), c09("VC09_Remove", 1, 3, 300, "remove-ok", "remove-error", "end"), c09("VC09_Append", 1, 3, 300, "append-ok", "append-error", "end"), c09("VC09_Membership", 2, 1, 300, "end")},
+		Quick:    []HarnessSpec{c09("VC09_Append", 2, 2, 300, "append-ok", "append-error", "end"), c09("VC09_Remove", 2, 2, 300, "remove-ok", "remove-error", "end"), c09("VC09_Remove", 1, 3, 300, "remove-ok", "remove-error", "end"), c09("VC09_Append", 1, 3, 300, "append-ok", "append-error", "end"), c09("VC09_Membership", 2, 1, 300, "end")},
 		Thorough: []HarnessSpec{c09("VC09_Append", 3, 2, 3000, "append-ok", "append-error", "end"), c09("VC09_Remove", 3, 2, 3000, "remove-ok", "remove-error", "end"), c09("VC09_Membership", 2, 2, 3000, "end")},
 		Bounds: []string{"one operation (Append / Remove / BytesExists / SigDataExists) with symbolic arguments from an arbitrary valid pre-state: 0..2 lists x 1..2 entries and 0..1 list x 1..3 entries (quick; membership 1 entry per list) / 0..3 x 1..2 (thorough), list kinds SHA-256, X.509 of 3/4/59 bytes, SHA-1; argument types SHA-256, X.509, SHA-1, unknown GUID; data lengths 32, 3, 4, 33, 20, 59; X.509 data raw or as PEM text (vsym.PEMOf); owners and data symbolic",
 			"pre-state invariant Inv: ListSize = 28 + n*Size, every entry has Size bytes, n >= 1, no duplicate inside a list; histories of any length follow by induction on the step, the empty database is the base case"},
-		Outside: []string{"AppendList / AppendDatabase and the list-level API (SignatureList.AppendBytes on a list of another size)", "duplicates across two lists of equal type and size (the statement is read per list)", "real certificates (data is opaque bytes)"},
+		Outside:     []string{"AppendList / AppendDatabase and the list-level API (SignatureList.AppendBytes on a list of another size)", "duplicates across two lists of equal type and size (the statement is read per list)", "real certificates (data is opaque bytes)"},
 		Assumptions: append([]string{"encoding/pem.Decode is modelled: PEM inputs are introduced with vsym.PEMOf (decode to their DER bytes), other symbolic data is assumed not to be PEM text; native replays use the real encoding/pem"}, commonAssumptions...),
 	}
 	registry["C19"] = &Property{
@@ -176,7 +180,7 @@ func init() {
 		},
 		Bounds: []string{"parsed symbolic image (C01 shape, 1 section, no pre-existing table, two appended signatures of fixed lengths 5 and 8): Hash, Bytes, Signatures, Open+drain twice in both orders; database of C09 shapes: Bytes, Marshal, BytesExists, SigDataExists, Exists twice in both orders; signed-update wrapper value with symbolic content <= 4096 bytes; decoded descriptor <= 64 bytes",
 			"repeatability: results equal (decided by SMT / structural byte-string equality)", "purity: the executor's write log contains no store into any slot, buffer or map reachable from the object (and the caller's reader) before the calls; evidence.reached shows 'readonly:*' for every path"},
-		Outside: []string{"actual goroutine interleavings and the Go race detector: concurrency safety is concluded only through the sufficient condition 'the operations store nothing into shared state' (then every interleaving is race-free and returns the sequential results); a non-empty write set with repeatable results would be reported as undecided, not as a violation", "Verify (needs the PKCS#7 model)"},
+		Outside:     []string{"goroutine interleavings in general: concurrency safety is concluded through the sufficient condition 'the operations store nothing into state that existed before the calls' (then every interleaving is race-free and returns the sequential results); when the executor finds such a store, the path's inputs are replayed natively under the Go race detector with every operation run twice from separate goroutines (vsym.Concurrent): a detector report is a VIOLATION, silence is reported as UNDECIDED, not as success", "Verify (needs the PKCS#7 model)"},
 		Assumptions: commonAssumptions,
 	}
 	registry["C11"] = &Property{
@@ -195,7 +199,7 @@ func init() {
 		Bounds: []string{"object API (EFIFS.WriteVar / GetVarWithAttributes over fswrapper): symbolic GUID (all 2^128), symbolic 32-bit attribute mask, name = 4 (quick) / 8 symbolic ASCII letters or digits, value / stored file = symbolic bytes of symbolic length <= 4096 (quick) / 65536; every predefined variable definition by name",
 			"file system = recording afero.Fs written in the harness (interpreted): the complete operation trace is asserted",
 			"legacy package-level API (efi/attributes.WriteEfivarsWithGuid / ReadEfivarsWithGuid over efi/fs): same trace assertions and read-back, same symbolic inputs"},
-		Outside: []string{"the immutable-flag ioctl of the legacy API is an OS stub (any flag word or error); the attribute-checked typed readers of package efi (GetPK, ...) are not harnessed", "efivars directories other than the default", "names with characters outside [A-Za-z0-9] (path.Clean is interpreted; such characters are excluded by assumption)"},
+		Outside:     []string{"the immutable-flag ioctl of the legacy API is an OS stub (any flag word or error); the attribute-checked typed readers of package efi (GetPK, ...) are not harnessed", "efivars directories other than the default", "names with characters outside [A-Za-z0-9] (path.Clean is interpreted; such characters are excluded by assumption)"},
 		Assumptions: commonAssumptions,
 	}
 	registry["C12"] = &Property{
@@ -205,7 +209,7 @@ func init() {
 			{Name: "VC12_SignedRegister", Params: map[string]int{"vsymC12Max": 100}, ConcAlloc: true, MaxPaths: 2000000, TimeoutSec: 3000, NeedReach: []string{"end"}}},
 		Bounds: []string{"inductive step on the in-memory store (real afero.MemMapFs interpreted): variable A holds an arbitrary previous value, variable B an arbitrary value; one plain WriteVar of a value of any length 0..8 (quick) / 0..40 bytes (all length combinations case-split, contents symbolic); read of A returns exactly the new value, B unchanged",
 			"signed step: PK / KEK / db / dbx holding an arbitrary previous value (0..6 bytes quick / 0..100); one WriteSignedUpdate (real SignEFIVariable and SignPKCS7 under the signature model) of a database with 0, 1 or 2 SHA-256 entries (symbolic); the typed read returns the payload with the descriptor removed"},
-		Outside: []string{"APPEND_WRITE", "values longer than the bound", "signed payloads other than databases of 0..2 SHA-256 entries"},
+		Outside:     []string{"APPEND_WRITE", "values longer than the bound", "signed payloads other than databases of 0..2 SHA-256 entries"},
 		Assumptions: commonAssumptions,
 	}
 	registry["C15"] = &Property{
@@ -221,7 +225,7 @@ func init() {
 		Bounds: []string{"write variable: every position of the call sequence OpenFile / Write / Close may fail (symbolic fault bits, all combinations), and Write may be short by any symbolic count; read variable: Open / Stat / every Read may fail", "asserted: any injected fault => non-nil error, nothing decoded after a failed read",
 			"signer: Sign may fail (symbolic fault bit) in SignPKCS7 (3 content types), in PECOFFBinary.Sign on the shipped test image (error, no signature returned, Signatures() and Bytes() unchanged) and in WriteSignedUpdate combined with all file-system faults (failed signing writes nothing)",
 			"image reader: every one of the ReadAt calls Parse issues on the shipped test image may fail: error and no parsed object; on a doubly signed image every ReadAt call of Verify and Hash may fail (all combinations): never success, error reported, no digest"},
-		Outside: []string{"a failing Close after a complete read is not asserted (it does not invalidate the data read)", "images other than the shipped unsigned test image for the image-level fault harnesses (the image is concrete there; the fault positions are symbolic)"},
+		Outside:     []string{"a failing Close after a complete read is not asserted (it does not invalidate the data read)", "images other than the shipped unsigned test image for the image-level fault harnesses (the image is concrete there; the fault positions are symbolic)"},
 		Assumptions: commonAssumptions,
 	}
 	registry["C05"] = &Property{
@@ -229,7 +233,7 @@ func init() {
 		Thorough: []HarnessSpec{{Name: "VC05_DERvsReference", Params: map[string]int{"vsymC05Content": 700, "vsymC05Serial": 4, "vsymC05RawLens": 3}, MaxDecisions: 4000, MaxPaths: 4000000, TimeoutSec: 7200, NeedReach: []string{"end"}}},
 		Bounds: []string{"content: every length 0..140 (quick) / 0..700 (thorough), bytes symbolic; content types data, SpcIndirectDataContent, 1.2.3.4; certificate bytes of 5/140 (+300 thorough) symbolic bytes; issuer 3 symbolic bytes (copied verbatim); serial magnitudes of 1 and 20 (+2, 8 thorough) symbolic bytes incl. high bit set; the output is also parsed and verified by the library itself; clock symbolic (2001..2049)",
 			"oracle: reference RFC 2315 / X.690 encoder written in the harness (minimal definite lengths, INTEGER with sign octet, attribute SET = contentType, signingTime, messageDigest = SHA-256(content), signature = Sign(key, SHA-256(SET))): output compared byte for byte"},
-		Outside: []string{"that OpenSSL / other implementations agree with this reading of RFC 2315 (they are not Go code the engine can execute)", "contents longer than the bound (all DER length classes up to 0x82 are inside the thorough bound)", "RSA key sizes other than 2048 (the signature is an opaque 256-byte string in the model)", "clock in 2050 or later: the attribute encoder panics (UTCTime range) — assumed away, see DESIGN.md"},
+		Outside:     []string{"that OpenSSL / other implementations agree with this reading of RFC 2315 (they are not Go code the engine can execute)", "contents longer than the bound (all DER length classes up to 0x82 are inside the thorough bound)", "RSA key sizes other than 2048 (the signature is an opaque 256-byte string in the model)", "clock in 2050 or later: the attribute encoder panics (UTCTime range) — assumed away, see DESIGN.md"},
 		Assumptions: append([]string{"signature model: Sign(key, digest) is deterministic and injective per key; SHA-256 as in C01", "time model: calendar fields are uninterpreted functions of the instant, years 1950..2049"}, commonAssumptions...),
 	}
 	registry["C06"] = &Property{
@@ -237,7 +241,7 @@ func init() {
 		Thorough: []HarnessSpec{{Name: "VC06_SignedUpdateLayout", Params: map[string]int{"vsymC06Name": 8, "vsymC06Payload": 300}, MaxDecisions: 4000, MaxPaths: 400000, TimeoutSec: 3000, NeedReach: []string{"end"}}},
 		Bounds: []string{"name: 3 (quick) / 8 symbolic printable ASCII characters; GUID: all 2^128; attribute mask: all 2^32 (APPEND_WRITE on and off); payload: every length 0..40 (quick) / 0..300, bytes symbolic; clock symbolic; process time zone symbolic (UTC-12..UTC+14, whole hours)",
 			"decided: output = 16-byte timestamp (UTC calendar fields of the clock, other fields zero) || dwLength=24+len(SignedData), revision 0x0200, type 0x0EF1, PKCS7 type GUID in wire order || bare detached SignedData equal byte for byte to the reference encoding over UTF-16LE(name)||GUID||attrs||timestamp||payload || payload"},
-		Outside: []string{"non-ASCII names", "acceptance by real firmware", "payload kinds beyond raw bytes (a database payload is its encoding, C07)"},
+		Outside:     []string{"non-ASCII names", "acceptance by real firmware", "payload kinds beyond raw bytes (a database payload is its encoding, C07)"},
 		Assumptions: append([]string{"signature, hash and time models as in C05; native replays run with TZ set from the model (Etc/GMT±h)"}, commonAssumptions...),
 	}
 	registry["C02"] = &Property{
@@ -246,16 +250,16 @@ func init() {
 		Bounds: []string{"the shipped unsigned test image (concrete, 3825 bytes, 5 sections), signed by the library under the signature model with a symbolic serial; verified against the signer (must succeed), against another key under the same issuer and serial, and against an unrelated certificate (must not)",
 			"single-byte changes with symbolic value: every position of the section data (position symbolic per 512-byte window); each of the 32 bytes of the embedded image digest; issuer/serial bytes (all), signed-attribute bytes (stride 8) and signature bytes (stride 64) inside the SignerInfo; thorough adds sampled header bytes and the symbol-table window and stride 1/8",
 			"decided: Verify(cert) is not true for any of these mutants (collision resistance of SHA-256 stated exactly for equal-length inputs; unforgeability of the signature model)"},
-		Outside: []string{"multi-byte edits other than those composed by C04's unit harness", "images other than the fixture (C01 shows the digest is the specification's for symbolic images)", "unauthenticated parts of the blob (certificate bag, versions, algorithm identifiers): changes there may still verify and are not asserted", "header-byte mutations that redirect debug/pe into symbolic offsets of the concrete image are reported as unsupported paths, not as held"},
-		Assumptions: append([]string{"signature model: only signatures produced by Sign on the path verify; certificates for different keys differ in issuer or serial unless made by CertSameID", "SHA-256 model with functional consistency and collision resistance between equal-length inputs"}, commonAssumptions...),
+		Outside:     []string{"multi-byte edits other than those composed by C04's unit harness", "images other than the fixture (C01 shows the digest is the specification's for symbolic images)", "unauthenticated parts of the blob (certificate bag, versions, algorithm identifiers): changes there may still verify and are not asserted", "header-byte mutations that redirect debug/pe into symbolic offsets of the concrete image are reported as unsupported paths, not as held"},
+		Assumptions: append([]string{"signature model: only signatures produced by Sign on the path verify; all certificates are issued by one test CA (issuer name CN=<7 symbolic letters>, identical natively); certificates for different keys differ in serial unless made by CertSameID", "SHA-256 model with functional consistency and collision resistance (exact between inputs of equal concrete length; inputs of different lengths have different digests)"}, commonAssumptions...),
 	}
 	registry["C04"] = &Property{
-		Quick:    []HarnessSpec{{Name: "VC04_VerifySound", Params: map[string]int{"vsymC04Signers": 2}, MaxDecisions: 2000, TimeoutSec: 600, NeedReach: []string{"honest-verifies", "accepted", "rejected", "end"}},
+		Quick: []HarnessSpec{{Name: "VC04_VerifySound", Params: map[string]int{"vsymC04Signers": 2}, MaxDecisions: 2000, TimeoutSec: 600, NeedReach: []string{"honest-verifies", "accepted", "rejected", "end"}},
 			{Name: "VC04_AttributeBytes", MaxDecisions: 2000, NeedReach: []string{"end"}}},
 		Bounds: []string{"attribute bytes: the three standard attributes signed in any of the 6 orders and placed in the blob (built by the reference encoder, content attached) in any of the 6 orders: Verify is true iff the orders agree",
 			"unit level: the parsed SignedData is arbitrary — 1..2 signer entries with symbolic issuer, serial, content type, 32-byte message digest and 256-byte signature; encapsulated content present or absent with symbolic bytes; the honest key has produced one real signature (SignPKCS7) that the adversary may reuse",
 			"decided: Verify(cert) = true only if some entry names the certificate, its signature is valid under the certificate's key over that entry's attribute SET, and (content encapsulated) its message digest equals SHA-256 of the content; completeness: the honest blob parses and verifies"},
-		Outside: []string{"byte-level edits of real blobs (covered for the Authenticode blob by C02)", "attribute edits other than permutation (duplication, removal: they change the signed bytes in the same way)", "EFIVariableAuthentication2.Verify entry point (thin wrapper)"},
+		Outside:     []string{"byte-level edits of real blobs (covered for the Authenticode blob by C02)", "attribute edits other than permutation (duplication, removal: they change the signed bytes in the same way)", "EFIVariableAuthentication2.Verify entry point (thin wrapper)"},
 		Assumptions: append([]string{"signature and hash models as in C02"}, commonAssumptions...),
 	}
 	registry["C13"] = &Property{
@@ -276,14 +280,14 @@ func init() {
 		Bounds: []string{"image: the shipped test image with one header field at a time taking every value (e_lfanew, NumberOfSections, PointerToSymbolTable, NumberOfSymbols, SizeOfOptionalHeader, Magic, SizeOfHeaders, NumberOfRvaAndSizes, certificate table address and size, and SizeOfRawData / PointerToRawData / PointerToRelocations / NumberOfRelocations of two sections), then Parse, Hash, Bytes, Signatures",
 			"certificate table walk: fully symbolic table of 0..24 (quick) / 0..48 bytes; PKCS#7: fully symbolic DER of 0..12 (quick) / 0..14 bytes, a library-produced blob with one byte (stride 64 quick / 8 thorough) taking every value, and a signer entry without signed attributes",
 			"obligations on every path: no panic, no log.Fatal/os.Exit, every byte allocation <= 8*len + 16 MiB (image) / 64 KiB (others), termination within 3000 symbolic decisions and 20M steps; violations are replayed natively (panic / exit / measured allocation above 64 MiB / time-out)"},
-		Outside: []string{"several header fields changed at once, images other than the fixture, fully symbolic images", "Verify on mutated images (C02 covers single-byte mutants of a signed image)", "wall-clock time and resident memory as measured quantities", "longer symbolic DER"},
+		Outside:     []string{"several header fields changed at once, images other than the fixture, fully symbolic images", "Verify on mutated images (C02 covers single-byte mutants of a signed image)", "wall-clock time and resident memory as measured quantities", "longer symbolic DER"},
 		Assumptions: append([]string{"debug/pe.readCOFFSymbols reads auxiliary symbol records through an unsafe pointer cast; the model reads them into a scratch record (NewFile never uses their content)"}, commonAssumptions...),
 	}
 	registry["C16"] = &Property{
-		Quick:    []HarnessSpec{{Name: "VC16_ThirdParty", NeedReach: []string{"end"}}, {Name: "VC16_Fixtures", NeedReach: []string{"end"}}},
-		Bounds: []string{"producer language (assumption about OpenSSL smime/cms with SHA-256 and sbsign, see DESIGN.md C16): attributes contentType(data), signingTime, messageDigest, optionally sMIMECapabilities with an opaque 48-byte body, in DER order; with/without outer ContentInfo; digest algorithm with/without NULL parameters; content (4 symbolic bytes, as OCTET STRING) attached or detached — all 32 combinations; serials and certificate bytes symbolic; the blob is built by the harness's reference encoder, not by the library",
+		Quick: []HarnessSpec{{Name: "VC16_ThirdParty", NeedReach: []string{"end"}}, {Name: "VC16_Fixtures", NeedReach: []string{"end"}}},
+		Bounds: []string{"producer language (assumption about OpenSSL smime/cms with SHA-256 and sbsign, see DESIGN.md C16): attributes contentType(data), signingTime, messageDigest, optionally sMIMECapabilities with an opaque body of 7, 8, 48 or 150 bytes (signed attributes of 105..270 bytes: all three DER length forms), in DER order; with/without outer ContentInfo; digest algorithm with/without NULL parameters; content (4 symbolic bytes, as OCTET STRING) attached or detached — all 40 combinations; serials and certificate bytes symbolic; the blob is built by the harness's reference encoder, not by the library",
 			"decided: parses; signedBytes() and Marshal() of the parsed attributes equal the signed SET byte for byte; Verify(signer's certificate) is true and Verify(other certificate) is false", "the four third-party artefacts shipped under pkcs7/testdata and authenticode/testdata parse (concrete run; certificates through the real crypto/x509)"},
-		Outside: []string{"that the OpenSSL CLI emits exactly this language for each option combination (OpenSSL is C code outside the engine)", "verification of the shipped artefacts against their certificates (real RSA is outside the signature model)", "additional signed attributes beyond sMIMECapabilities; since fix 4b3bc85 verification uses the original attribute bytes, so attribute order no longer affects verification"},
+		Outside:     []string{"that the OpenSSL CLI emits exactly this language for each option combination (OpenSSL is C code outside the engine)", "verification of the shipped artefacts against their certificates (real RSA is outside the signature model)", "additional signed attributes beyond sMIMECapabilities; since fix 4b3bc85 verification uses the original attribute bytes, so attribute order no longer affects verification"},
 		Assumptions: append([]string{"signature, hash and time models as in C05"}, commonAssumptions...),
 	}
 }
